@@ -1,5 +1,7 @@
 """C12 taproot commitments, C13 MuSig / k-of-n trees (buidl/taproot.py, pecc.py tweak functions)
 in the discrete-log theory of contracts/ecc.py."""
+import itertools
+
 from .common import *  # noqa
 from .ecc import point, N
 
@@ -380,9 +382,14 @@ for _n in (2, 3):
             _p["k%d2" % i] = SEC
         _p["msg"] = H32
         _p["root"] = _kind
-        contract(H + "musig_flow%d#%s" % (_n, _sfx), props=("C13",), nl_uf=True, setup=INJ, params=_p,
-                 requires=["spec.taproot.musig_defined(%s, %s, msg, root)" % (_ds(_n), _ks(_n))],
-                 ensures=["returns()",
-                          "result[0] == spec.taproot.x32(spec.taproot.musig_session_key(%s, root))" % _ds(_n),
-                          "spec.schnorr.verify(result[0], msg, result[1]) is True"],
-                 gen=_gen_musig(_n, _sfx == "root"), tiers=("quick", "thorough") if _n == 2 else ("thorough",))
+        # one contract per outcome of the sort of the x-only keys (case split; the cases run in parallel)
+        for _perm in itertools.permutations(range(1, _n + 1)):
+            _dsp = "[%s]" % ", ".join("d%d" % i for i in _perm)
+            _ksp = "[%s]" % ", ".join("(k%d1, k%d2)" % (i, i) for i in _perm)
+            contract(H + "musig_flow%d#%s-order%s" % (_n, _sfx, "".join(map(str, _perm))), props=("C13",), nl_uf=True,
+                     setup=INJ, params=_p,
+                     requires=["spec.taproot.musig_defined_sorted(%s, %s, msg, root)" % (_dsp, _ksp)],
+                     ensures=["returns()",
+                              "result[0] == spec.taproot.x32(spec.taproot.musig_session_key_sorted(%s, root))" % _dsp,
+                              "spec.schnorr.verify(result[0], msg, result[1]) is True"],
+                     gen=_gen_musig(_n, _sfx == "root"), tiers=("thorough",))
